@@ -1,5 +1,362 @@
-//! C11 harness (stub: not implemented yet).
+//! C11 — private repositories never leak through gossip.
+//!
+//! Drives the real `Service` (shared engine `../c10/src/engine.rs`) with interleavings of subscriptions
+//! (before and after the announcement), the node's own refs announcements, refs announcements relayed from
+//! another node, restarts (`initialize` pre-loading refs announcements of repositories with fresh refs),
+//! visibility changes, repositories arriving in / leaving storage, fetches, inventory changes — with a
+//! delegate (peer 1), an allow-listed peer (2) and a stranger (3) connected.
+//!
+//! Ground truth: every repository of a case has a visibility / delegates / allow list whether or not the
+//! node has it in storage (`p,…` ops); the oracle evaluates the property statement against that truth:
+//!
+//! * a refs announcement about a private repository written to a peer that is neither delegate nor
+//!   allow-listed: `replay-private-repo-in-storage` (the defect fixed by the `fix:` commit — must not occur),
+//!   `replay-private-repo-not-in-storage` (residual: the node cannot know), `relay-private-refs`,
+//!   `own-private-refs-announced`, `initial-private-refs`;
+//! * an inventory announcement of the node that lists a private repository:
+//!   `inventory-lists-repo-made-private` (it was listed while public; only `initialize` cleans up),
+//!   `inventory-lists-private-repo` (it was never listed while public).
+
+#[path = "../../c10/src/engine.rs"]
+mod engine;
+
+use engine::*;
+use std::collections::BTreeSet;
+use verif_common::*;
+
+fn oracle(recs: &[StepRec], tags: &mut Vec<String>) -> Vec<(String, String)> {
+    let mut viol: Vec<(String, String)> = vec![];
+    // repositories that were listed in an inventory announcement of the node while public
+    let mut listed_public: BTreeSet<u64> = BTreeSet::new();
+    for (j, r) in recs.iter().enumerate() {
+        for w in &r.writes {
+            if w.ann.kind == 'r' {
+                let Some(spec) = r.repos.get(&w.ann.repo) else { continue };
+                let own = w.ann.node == 0;
+                let path = match &r.op {
+                    Op::Subscribe(..) => "replay",
+                    Op::Connect(..) => "initial",
+                    _ if own => "own",
+                    _ => "relay",
+                };
+                if spec.private {
+                    tags.push(format!("private-refs-{path}-to-{}", if spec.visible_to(w.peer) { "allowed" } else { "STRANGER" }));
+                } else {
+                    tags.push(format!("public-refs-{path}"));
+                }
+                if spec.private && !spec.visible_to(w.peer) {
+                    let class = match (path, spec.present) {
+                        ("replay", true) => "replay-private-repo-in-storage",
+                        ("replay", false) => "replay-private-repo-not-in-storage",
+                        ("own", _) => "own-private-refs-announced",
+                        ("initial", _) => "initial-private-refs",
+                        (_, true) => "relay-private-refs",
+                        (_, false) => "relay-private-repo-not-in-storage",
+                    };
+                    viol.push((
+                        class.to_string(),
+                        format!(
+                            "op {j}: refs announcement {} about private repository {} (delegates {:?}, allow {:?}, in storage: {}) written to peer {}",
+                            w.ann.show(), w.ann.repo, spec.delegates, spec.allow, spec.present, w.peer
+                        ),
+                    ));
+                }
+            }
+            if w.ann.kind == 'i' && w.ann.node == 0 {
+                for rid in &w.inv {
+                    let private = r.repos.get(rid).map(|s| s.private).unwrap_or(false);
+                    if private {
+                        let class = if listed_public.contains(rid) { "inventory-lists-repo-made-private" } else { "inventory-lists-private-repo" };
+                        viol.push((class.to_string(), format!("op {j}: inventory announcement {} of the node lists private repository {rid}", w.show())));
+                    } else {
+                        listed_public.insert(*rid);
+                    }
+                }
+                if !w.inv.is_empty() {
+                    tags.push("own-inventory-nonempty".into());
+                }
+            }
+        }
+        match &r.op {
+            Op::Restart => tags.push("restart".into()),
+            Op::SetRepo(spec) => {
+                if let Some(old) = r.repos.get(&spec.rid) {
+                    if old.private != spec.private {
+                        tags.push(if spec.private { "made-private" } else { "made-public" }.into());
+                    }
+                    if old.present != spec.present {
+                        tags.push(if spec.present { "repo-arrives" } else { "repo-leaves" }.into());
+                    }
+                }
+            }
+            Op::Subscribe(p, ..) => {
+                let stored_private = r.rows.iter().any(|x| x.kind == 'r' && r.repos.get(&x.repo).map(|s| s.private).unwrap_or(false));
+                if stored_private {
+                    tags.push(format!("subscribe-after-private-stored-by-{p}"));
+                }
+            }
+            _ => {}
+        }
+        if r.panicked.is_some() {
+            tags.push("panic".into());
+        }
+    }
+    viol.sort();
+    viol.dedup();
+    viol
+}
+
+fn run_case(input: &str) -> Outcome {
+    let Some((_t0, recs)) = run(input) else { return Outcome::new("bad-case").trivial() };
+    let mut o = Outcome::new(show(&recs));
+    let mut tags = vec![];
+    o.violations = oracle(&recs, &mut tags);
+    tags.sort();
+    tags.dedup();
+    // non-trivial: a refs announcement about a private repository was stored or written, and a peer that
+    // may not see it was connected at that time
+    let private_refs = recs.iter().any(|r| {
+        r.rows.iter().any(|x| x.kind == 'r' && r.repos.get(&x.repo).map(|s| s.private).unwrap_or(false))
+            && r.sessions.iter().any(|p| r.repos.values().any(|s| s.private && !s.visible_to(*p)))
+    });
+    o.nontrivial = private_refs;
+    o.tags = tags;
+    o
+}
+
+const T0: u64 = 1_700_000_000_000;
+
+/// Fixed set-up of the exhaustive part: repo 0 public, repo 1 private (delegates: local node and peer 1;
+/// allow: peer 2), repo 2 private and NOT in storage (delegate: node 4); all seeded; node 4 known;
+/// peers 1 (delegate), 2 (allow-listed), 3 (stranger) connected.
+fn prefix() -> String {
+    format!(
+        "{T0} 1 p,0,1,0,0,-,1,1000 p,1,1,1,0+1,2,2,1000 p,2,0,1,4,-,-,0 z,0 z,1 z,2 n,4,{} c,1,i c,2,o c,3,i",
+        T0 - 1000
+    )
+}
+
+fn alphabet() -> Vec<String> {
+    vec![
+        format!("s,3,*,0,{I64MAX}"),          // the stranger subscribes to everything
+        format!("s,2,*,0,{I64MAX}"),          // the allow-listed peer subscribes
+        "r,1".to_string(),                    // own refs announcement about the private repository
+        format!("a,1,4,r,1,{},1,1", T0 + 7),  // node 4's refs announcement about private repo 1, via peer 1
+        format!("a,1,4,r,2,{},1,1", T0 + 8),  // … about private repo 2, which the node does not have
+        "R".to_string(),                      // restart: pre-loads refs announcements of repos with fresh refs
+        "p,0,1,1,0,-,1,1000".to_string(),     // the public repository becomes private
+        "p,2,1,1,4,-,-,0".to_string(),        // repository 2 arrives in storage
+        "e,6000".to_string(),                 // gossip tick
+        "i,0".to_string(),                    // AddInventory of the public repository
+    ]
+}
+
+fn exhaustive(ctx: &mut Ctx, len: usize) {
+    let alphabet = alphabet();
+    let prefix = prefix();
+    let mut idx = vec![0usize; len];
+    loop {
+        let mut toks = vec![prefix.clone()];
+        for i in &idx {
+            toks.push(alphabet[*i].clone());
+        }
+        // whatever happened: the stranger (re)connects and asks for everything, and a tick passes
+        toks.push("d,3".into());
+        toks.push("c,3,i".into());
+        toks.push(format!("s,3,*,0,{I64MAX}"));
+        toks.push("e,6000".into());
+        let input = toks.join(" ");
+        // `i,0` after repo 0 was made private is outside the environment (AddInventory is only issued for
+        // public repositories): skip those sequences
+        let mut private0 = false;
+        let mut ok = true;
+        for i in &idx {
+            if *i == 6 {
+                private0 = true;
+            }
+            if *i == 9 && private0 {
+                ok = false;
+            }
+        }
+        if ok {
+            let o = run_case(&input);
+            ctx.count("exhaustive-small-alphabet");
+            ctx.record(&input, o);
+        }
+        let mut k = 0;
+        loop {
+            if k == len {
+                return;
+            }
+            idx[k] += 1;
+            if idx[k] < alphabet.len() {
+                break;
+            }
+            idx[k] = 0;
+            k += 1;
+        }
+    }
+}
+
+fn gen_case(rng: &mut Rng, max_ops: u64) -> String {
+    let t0 = T0 + rng.below(1_000_000);
+    let mut toks = vec![t0.to_string(), (!rng.chance(1, 6) as u8).to_string()];
+    let mut clock = t0;
+    let n_repos = rng.range(2, 4);
+    let mut repos: Vec<RepoSpec> = vec![];
+    let mut oid = 1u64;
+    for rid in 0..n_repos {
+        let private = rid > 0 && rng.chance(2, 3);
+        let present = !rng.chance(1, 4);
+        let mut delegates = vec![if rng.chance(3, 4) { 0 } else { 4 }];
+        if rng.chance(1, 3) {
+            delegates.push(1);
+        }
+        let allow = if private && rng.bool() { vec![2] } else { vec![] };
+        let own = if present && rng.chance(2, 3) {
+            oid += 1;
+            Some((oid, if rng.bool() { 1000 } else { t0 + 5_000_000 }))
+        } else {
+            None
+        };
+        let r = RepoSpec { rid, present, private, delegates, allow, own };
+        toks.push(repo_tok(&r));
+        if !rng.chance(1, 6) {
+            toks.push(format!("z,{rid}"));
+        }
+        repos.push(r);
+    }
+    for x in 4..=5u64 {
+        if !rng.chance(1, 6) {
+            toks.push(format!("n,{x},{}", t0 - rng.below(1000)));
+        }
+    }
+    let mut connected: Vec<u64> = vec![];
+    for p in 1..=3u64 {
+        if !rng.chance(1, 5) {
+            toks.push(format!("c,{p},{}", if rng.bool() { "i" } else { "o" }));
+            connected.push(p);
+            if rng.bool() {
+                toks.push(format!("s,{p},*,0,{I64MAX}"));
+            }
+        }
+    }
+    let mut ts = t0;
+    let n = rng.range(3, max_ops);
+    for _ in 0..n {
+        let rid = rng.below(n_repos);
+        match rng.below(100) {
+            0..=17 => {
+                if !connected.is_empty() {
+                    let p = *rng.pick(&connected);
+                    let filt = match rng.below(4) {
+                        0 => plus_list(&(0..n_repos).filter(|_| rng.bool()).collect::<Vec<_>>()),
+                        _ => "*".to_string(),
+                    };
+                    let since = if rng.chance(1, 4) { clock.saturating_sub(rng.below(3000)) } else { 0 };
+                    toks.push(format!("s,{p},{filt},{since},{I64MAX}"));
+                }
+            }
+            18..=29 => toks.push(format!("r,{rid}")),
+            30..=47 => {
+                ts += rng.range(1, 5);
+                let p = if connected.is_empty() { 1 } else { *rng.pick(&connected) };
+                let a = AnnSpec { node: rng.range(4, 5), kind: Kind::Refs, repo: rid, ts, sig_ok: true, inv: vec![], flag: !rng.chance(1, 10) };
+                toks.push(ann_tok(p, &a));
+            }
+            48..=55 => toks.push("R".into()),
+            56..=67 => {
+                // repository change: visibility, allow list, delegates, presence, fresh own refs
+                let r = &mut repos[rid as usize];
+                match rng.below(6) {
+                    0 | 1 => r.private = !r.private,
+                    2 => r.present = !r.present,
+                    3 => r.allow = if r.allow.is_empty() { vec![rng.range(2, 3)] } else { vec![] },
+                    4 => {
+                        if r.delegates.contains(&1) {
+                            r.delegates.retain(|d| *d != 1)
+                        } else {
+                            r.delegates.push(1)
+                        }
+                    }
+                    _ => {}
+                }
+                if !r.present {
+                    r.own = None;
+                } else if rng.bool() {
+                    oid += 1;
+                    r.own = Some((oid, if rng.bool() { 1000 } else { clock + 5_000_000 }));
+                }
+                toks.push(repo_tok(r));
+            }
+            68..=77 => {
+                let dt = *rng.pick(&[6000, 6000, 1, 30_000, 3_600_000]);
+                clock += dt;
+                toks.push(format!("e,{dt}"));
+            }
+            78..=84 => {
+                let p = rng.range(1, 3);
+                if connected.contains(&p) {
+                    toks.push(format!("d,{p}"));
+                    connected.retain(|x| *x != p);
+                } else {
+                    toks.push(format!("c,{p},{}", if rng.bool() { "i" } else { "o" }));
+                    connected.push(p);
+                }
+            }
+            85..=89 => {
+                // AddInventory: only for public repositories (what `rad` does)
+                if !repos[rid as usize].private {
+                    toks.push(format!("i,{rid}"));
+                }
+            }
+            90..=93 => {
+                let r = &repos[rid as usize];
+                if r.present && !connected.is_empty() {
+                    toks.push(format!("f,{rid},{},{},{}", rng.pick(&connected), rng.bool() as u8, rng.chance(3, 4) as u8));
+                }
+            }
+            94..=96 => toks.push(format!("{},{rid}", if rng.bool() { "z" } else { "u" })),
+            97 => toks.push("I".into()),
+            _ => {
+                ts += 1;
+                let p = if connected.is_empty() { 1 } else { *rng.pick(&connected) };
+                let a = AnnSpec { node: 4, kind: Kind::Inv, repo: 0, ts, sig_ok: true, inv: (0..n_repos).filter(|_| rng.bool()).collect(), flag: false };
+                toks.push(ann_tok(p, &a));
+            }
+        }
+    }
+    // finally: the stranger asks for everything, and a tick passes
+    if !connected.contains(&3) {
+        toks.push("c,3,i".into());
+    }
+    toks.push(format!("s,3,*,0,{I64MAX}"));
+    toks.push("e,6000".into());
+    toks.join(" ")
+}
+
 fn main() {
-    eprintln!("C11: harness not implemented");
-    std::process::exit(3);
+    let mut ctx = Ctx::from_args("C11");
+    if !ctx.run_fixed(run_case) {
+        let quick = ctx.quick();
+        exhaustive(&mut ctx, if quick { 3 } else { 4 });
+        let mut rng = ctx.rng();
+        let n = ctx.size(500, 10_000);
+        let max = ctx.size(12, 20);
+        for _ in 0..n {
+            let input = gen_case(&mut rng, max);
+            let o = run_case(&input);
+            ctx.record(&input, o);
+        }
+    }
+    ctx.finish(
+        "every sequence of 3 (thorough: 4) ops over a 10-op alphabet (stranger / allow-listed peer subscribe, own refs announcement of a \
+         private repo, refs announcement of another node about a private repo in storage / not in storage, restart, public repo made \
+         private, repo arriving in storage, gossip tick, AddInventory) after a fixed set-up with a delegate, an allow-listed peer and a \
+         stranger connected, each followed by the stranger reconnecting and subscribing to everything; plus random interleavings (quick <= 12, \
+         thorough <= 20 ops) of the same kinds with random visibility / allow-list / delegate / presence changes, fetches, (un)seeding; \
+         non-trivial = a refs announcement about a private repository was stored while a peer that may not see it was connected; \
+         distinct by input text",
+        false,
+    );
 }
